@@ -28,8 +28,8 @@ MANIFEST = {
     'level_note': 'Trusts the renderer and CPython datetime.  Templates are the ones listed in vf/render_gen.py; text forms '
                   'outside that list are not covered.',
 }
-PLAN = {'quick': {'shards': 4, 'timeout': 400, 'budget': 45},
-        'thorough': {'shards': 16, 'timeout': 1800, 'budget': 420}}
+PLAN = {'quick': {'shards': 4, 'timeout': 1800, 'budget': 900},
+        'thorough': {'shards': 16, 'timeout': 7200, 'budget': 2400}}
 N_CASES = {'quick': 12000, 'thorough': 120000}
 TZS = ['UTC', 'America/New_York', 'Europe/London', 'Asia/Kolkata']
 
